@@ -81,7 +81,7 @@ theorem run_gen_of_not_byValue (cfg : Cfg) (fails : Nat → Bool) (mode : Mode) 
 
 mutual
 theorem run_eq_ignore (cfg : Cfg) (fails : Nat → Bool) (hIO : cfg.keepIO = true) (hKE : cfg.keepKidExe = true)
-    (hDD : cfg.dropDetached = true) :
+    (hDD : cfg.dropDetached = true) (hBE : cfg.keepBodyExe = true) :
     ∀ (n : Node) (mode : Mode) (ins : List Val) (mask : List Bool),
       allOk (run cfg fails .ignore ins mask n) = true →
       run cfg fails mode ins mask n = run cfg fails .ignore ins mask n
@@ -93,14 +93,14 @@ theorem run_eq_ignore (cfg : Cfg) (fails : Nat → Bool) (hIO : cfg.keepIO = tru
     rw [allOkKids_rewireAll] at hk
     by_cases hb : (place mode o.exe).byValue = true
     · simp only [hb, if_true]
-      rw [runKids_eq_ignore cfg fails hIO hKE hDD kids (.honour true) ins links mask KS.init hk]
-      simp [mergeOrFail, herr, mergeBack, hIO, hKE, hDD]
+      rw [runKids_eq_ignore cfg fails hIO hKE hDD hBE kids (.honour true) ins links mask KS.init hk]
+      simp [mergeOrFail, herr, mergeBack, hIO, hKE, hDD, hBE]
     · simp only [hb]
-      rw [runKids_eq_ignore cfg fails hIO hKE hDD kids mode ins links mask KS.init hk]
+      rw [runKids_eq_ignore cfg fails hIO hKE hDD hBE kids mode ins links mask KS.init hk]
       simp
 
 theorem runKids_eq_ignore (cfg : Cfg) (fails : Nat → Bool) (hIO : cfg.keepIO = true)
-    (hKE : cfg.keepKidExe = true) (hDD : cfg.dropDetached = true) :
+    (hKE : cfg.keepKidExe = true) (hDD : cfg.dropDetached = true) (hBE : cfg.keepBodyExe = true) :
     ∀ (kids : List Node) (mode : Mode) (pins : List Val) (links : List (Option Ref)) (mask : List Bool) (st : KS),
       allOkKids (runKids cfg fails .ignore pins links mask st kids).pre = true →
       runKids cfg fails mode pins links mask st kids = runKids cfg fails .ignore pins links mask st kids
@@ -111,17 +111,17 @@ theorem runKids_eq_ignore (cfg : Cfg) (fails : Nat → Bool) (hIO : cfg.keepIO =
     split
     · rename_i i hp
       simp only [hp] at h
-      exact runKids_eq_ignore cfg fails hIO hKE hDD rest mode pins links mask _ h
+      exact runKids_eq_ignore cfg fails hIO hKE hDD hBE rest mode pins links mask _ h
     · rename_i i hp
       simp only [hp] at h
-      exact runKids_eq_ignore cfg fails hIO hKE hDD rest mode pins links mask _ h
+      exact runKids_eq_ignore cfg fails hIO hKE hDD hBE rest mode pins links mask _ h
     · rename_i i hp
       simp only [hp] at h
       have hpre := allOkKids_runKids_pre cfg fails .ignore pins links mask rest _ h
       simp only [KS.push_pre, allOkKids_append, Bool.and_eq_true, allOkKids] at hpre
-      have hn := run_eq_ignore cfg fails hIO hKE hDD n mode i _ hpre.2.1
+      have hn := run_eq_ignore cfg fails hIO hKE hDD hBE n mode i _ hpre.2.1
       simp only [hn]
-      exact runKids_eq_ignore cfg fails hIO hKE hDD rest mode pins links mask _ h
+      exact runKids_eq_ignore cfg fails hIO hKE hDD hBE rest mode pins links mask _ h
 end
 
 
@@ -227,7 +227,7 @@ theorem KS.push_bumps_same (st : KS) (old n : Node) (ok err : Bool) (h : n.own.g
 
 mutual
 theorem shapeOf_run (cfg : Cfg) (fails : Nat → Bool) (hIO : cfg.keepIO = true) (hKE : cfg.keepKidExe = true)
-    (hDD : cfg.dropDetached = true) :
+    (hDD : cfg.dropDetached = true) (hBE : cfg.keepBodyExe = true) :
     ∀ (n : Node) (mode : Mode) (ins : List Val) (mask : List Bool),
       shapeOf (run cfg fails mode ins mask n) = shapeOf n
   | .fn o fid, mode, ins, mask => by
@@ -237,7 +237,7 @@ theorem shapeOf_run (cfg : Cfg) (fails : Nat → Bool) (hIO : cfg.keepIO = true)
     have hk : ∀ m, shapeOfKids (runKids cfg fails m ins links mask KS.init kids).pre = shapeOfKids kids ∧
         (runKids cfg fails m ins links mask KS.init kids).bumps = [] := by
       intro m
-      have := shapeOfKids_runKids cfg fails hIO hKE hDD kids m ins links mask KS.init
+      have := shapeOfKids_runKids cfg fails hIO hKE hDD hBE kids m ins links mask KS.init
       simpa [KS.init, shapeOfKids] using this
     simp only [run]
     by_cases hb : (place mode o.exe).byValue = true
@@ -245,7 +245,7 @@ theorem shapeOf_run (cfg : Cfg) (fails : Nat → Bool) (hIO : cfg.keepIO = true)
       split
       · simp only [shapeOf, shapeOfKids_pushKids]; rfl
       · obtain ⟨h1, h2⟩ := hk (.honour true)
-        simp only [mergeBack, hIO, hKE, hDD, if_true, h2, rewireAll_nil, shapeOf, h1]
+        simp only [mergeBack, hIO, hKE, hDD, hBE, if_true, h2, rewireAll_nil, shapeOf, h1]
         rfl
     · obtain ⟨h1, h2⟩ := hk mode
       simp only [hb, Bool.false_eq_true, if_false, h2, rewireAll_nil, shapeOf, h1]
@@ -253,7 +253,7 @@ theorem shapeOf_run (cfg : Cfg) (fails : Nat → Bool) (hIO : cfg.keepIO = true)
   termination_by n => sizeOf n
 
 theorem shapeOfKids_runKids (cfg : Cfg) (fails : Nat → Bool) (hIO : cfg.keepIO = true)
-    (hKE : cfg.keepKidExe = true) (hDD : cfg.dropDetached = true) :
+    (hKE : cfg.keepKidExe = true) (hDD : cfg.dropDetached = true) (hBE : cfg.keepBodyExe = true) :
     ∀ (kids : List Node) (mode : Mode) (pins : List Val) (links : List (Option Ref)) (mask : List Bool) (st : KS),
       shapeOfKids (runKids cfg fails mode pins links mask st kids).pre = shapeOfKids st.pre ++ shapeOfKids kids ∧
       (runKids cfg fails mode pins links mask st kids).bumps = st.bumps
@@ -262,22 +262,22 @@ theorem shapeOfKids_runKids (cfg : Cfg) (fails : Nat → Bool) (hIO : cfg.keepIO
     rw [runKids]
     split
     · rename_i i hp
-      obtain ⟨h1, h2⟩ := shapeOfKids_runKids cfg fails hIO hKE hDD rest mode pins links mask
+      obtain ⟨h1, h2⟩ := shapeOfKids_runKids cfg fails hIO hKE hDD hBE rest mode pins links mask
         (st.push n (setIns i (kidMask links mask st.pre.length n.own false) n) false false)
       rw [h1, h2, KS.push_bumps_same _ _ _ _ _ (by simp)]
       simp [shapeOfKids_append, shapeOfKids]
     · rename_i i hp
-      obtain ⟨h1, h2⟩ := shapeOfKids_runKids cfg fails hIO hKE hDD rest mode pins links mask
+      obtain ⟨h1, h2⟩ := shapeOfKids_runKids cfg fails hIO hKE hDD hBE rest mode pins links mask
         (st.push n (setIns i (kidMask links mask st.pre.length n.own true) n) false true)
       rw [h1, h2, KS.push_bumps_same _ _ _ _ _ (by simp)]
       simp [shapeOfKids_append, shapeOfKids]
     · rename_i i hp
-      obtain ⟨h1, h2⟩ := shapeOfKids_runKids cfg fails hIO hKE hDD rest mode pins links mask
+      obtain ⟨h1, h2⟩ := shapeOfKids_runKids cfg fails hIO hKE hDD hBE rest mode pins links mask
         (st.push n (run cfg fails mode i (kidMask links mask st.pre.length n.own true) n)
           (!(run cfg fails mode i (kidMask links mask st.pre.length n.own true) n).own.failed)
           (run cfg fails mode i (kidMask links mask st.pre.length n.own true) n).own.failed)
       rw [h1, h2, KS.push_bumps_same _ _ _ _ _ (run_gen_of_not_byValue cfg fails mode i _ n (Or.inr hIO))]
-      simp [shapeOfKids_append, shapeOfKids, shapeOf_run cfg fails hIO hKE hDD n mode i]
+      simp [shapeOfKids_append, shapeOfKids, shapeOf_run cfg fails hIO hKE hDD hBE n mode i]
   termination_by kids => sizeOf kids
 end
 
